@@ -35,8 +35,19 @@ func verifCallAsync(n *ClusterNode, proc string, req, resp any, done chan *rpc.C
 	if r.lost {
 		call.Error = errors.New("lost")
 	} else {
+		// What the caller observes when it inspects this call right after its reply was decoded and before the
+		// next reply arrives: gob decodes INTO the struct it was given and does not transmit zero fields, so a
+		// reply struct shared between calls keeps earlier non-zero values. With one struct per call (as the
+		// pinned code has it) the snapshot is exactly the reply.
 		vr := resp.(*ClusterVoteResponse)
-		vr.Result, vr.Term = r.result, r.term
+		if r.result {
+			vr.Result = true
+		}
+		if r.term != 0 {
+			vr.Term = r.term
+		}
+		snap := *vr
+		call.Reply = &snap
 	}
 	done <- call
 	return call
